@@ -62,3 +62,52 @@ Proof.
   destruct (astep a o) as [a' r].
   apply andb_true_iff in H as [H1 H2]. split; [apply obs_check_sound; exact H1 | apply IH; exact H2].
 Qed.
+
+(* ------------------------------------------------------------------ what "compatible" means, exactly *)
+(* a field with its byte order forgotten *)
+Definition strip_order (f : field) : field :=
+  {| f_name := f_name f; f_order := x00; f_kind := f_kind f; f_size := f_size f; f_shape := f_shape f |}.
+
+Lemma field_eqb_noorder_iff a b : field_eqb_noorder a b = true <-> strip_order a = strip_order b.
+Proof.
+  unfold field_eqb_noorder, strip_order. split.
+  - intro H. apply andb_true_iff in H as [H Hs]. apply andb_true_iff in H as [H Hz].
+    apply andb_true_iff in H as [H Hk]. apply andb_true_iff in H as [_ Hn].
+    apply bytes_eqb_eq in Hn. apply byte_eqb_eq in Hk. apply Z.eqb_eq in Hz. apply zl_eqb_eq in Hs.
+    congruence.
+  - intro E. injection E as E1 E2 E3 E4. rewrite E1, E2, E3, E4.
+    rewrite !andb_true_iff. repeat split.
+    + destruct (f_shape b); reflexivity.
+    + apply bytes_eqb_eq; reflexivity.
+    + apply byte_eqb_eq; reflexivity.
+    + apply Z.eqb_refl.
+    + apply zl_eqb_eq; reflexivity.
+Qed.
+
+Lemma dtype_eqb_noorder_iff a b : dtype_eqb_noorder a b = true <-> map strip_order a = map strip_order b.
+Proof.
+  unfold dtype_eqb_noorder. revert b. induction a as [|x a IH]; intros [|y b]; simpl; split; intro H;
+    try reflexivity; try discriminate.
+  - apply andb_true_iff in H as [H1 H2]. apply field_eqb_noorder_iff in H1. apply IH in H2. congruence.
+  - assert (H1 : strip_order x = strip_order y) by congruence.
+    assert (H2 : map strip_order a = map strip_order b) by congruence.
+    apply andb_true_iff. split; [apply field_eqb_noorder_iff; exact H1 | apply IH; exact H2].
+Qed.
+
+(* binary: equal dtypes, byte order included; text: equal once the byte order is forgotten *)
+Theorem compat_exact dl fdt cdt :
+  compat dl fdt cdt = true <->
+  match dl with None => fdt = cdt | Some _ => map strip_order fdt = map strip_order cdt end.
+Proof. destruct dl; simpl; [apply dtype_eqb_noorder_iff | apply dtype_eqb_eq]. Qed.
+
+(* the dtype recorded in a text file's header is compatible with the dtype it was created from,
+   in either byte order *)
+Lemma strip_nativize f : strip_order (nativize f) = strip_order f.
+Proof. reflexivity. Qed.
+
+Theorem compat_created dl dt : compat dl (file_dtype dl dt) dt = true.
+Proof.
+  apply compat_exact. destruct dl; [|reflexivity]. unfold file_dtype. rewrite map_map.
+  apply map_ext. intro f. apply strip_nativize.
+Qed.
+
